@@ -382,7 +382,7 @@ func writeReplay(prop string, f Failure) string {
 	dir := filepath.Join(verifDir, "replays")
 	_ = os.MkdirAll(dir, 0o755)
 	rec := map[string]any{
-		"property": prop, "clause": f.Clause, "history": f.Obs.hist, "cmd": f.Obs.Cmd,
+		"property": prop, "clause": f.Clause, "base": f.Obs.base, "history": f.Obs.hist, "cmd": f.Obs.Cmd,
 		"exit": f.Obs.Exit, "stdout": f.Obs.stdout, "stderr": f.Obs.stderr, "argv": f.Obs.realArgv,
 		"observation": f.Obs, "engine": f.Obs.Tag,
 	}
@@ -480,4 +480,60 @@ func viewDiff(pre, post map[string]any) string {
 	}
 	sort.Strings(names)
 	return strings.Join(names, ",")
+}
+
+// confirm re-executes sequential violations from a fresh store (the recorded
+// initial log, history and command) and keeps only those whose clause fails
+// again; what does not reproduce is counted and dropped (flake control).
+func (e *Env) confirm(out *Outcome) error {
+	var keep []Failure
+	var redo []Failure
+	seen := map[string]int{}
+	for _, v := range out.Violations {
+		n := v.Obs.Cmd.name()
+		if n == "conc" || n == "text" || n == "layout" || n == "humanlist" || n == "filecase" || n == "harvest" {
+			keep = append(keep, v) // engines with their own deterministic inputs
+			continue
+		}
+		key := v.Clause + "|" + n
+		seen[key]++
+		if seen[key] > 4 {
+			continue // more of the same: the first few decide
+		}
+		redo = append(redo, v)
+	}
+	if len(redo) == 0 {
+		out.Violations = keep
+		return nil
+	}
+	var stores []emitted
+	for _, v := range redo {
+		hist := append([]Cmd{}, v.Obs.hist...)
+		stores = append(stores, emitted{Base: v.Obs.base, Hist: hist, Alpha: []Cmd{v.Obs.Cmd}})
+	}
+	obs, _, err := e.driveStates("confirm", stores, false, 8)
+	if err != nil {
+		return err
+	}
+	fails, _, err := e.judge("confirm", obs)
+	if err != nil {
+		return err
+	}
+	again := map[string]bool{}
+	for _, f := range fails {
+		b, _ := json.Marshal(f.Obs.Cmd)
+		h, _ := json.Marshal(f.Obs.hist)
+		again[f.Clause+"|"+string(b)+"|"+string(h)] = true
+	}
+	for _, v := range redo {
+		b, _ := json.Marshal(complete(v.Obs.Cmd))
+		h, _ := json.Marshal(v.Obs.hist)
+		if again[v.Clause+"|"+string(b)+"|"+string(h)] {
+			keep = append(keep, v)
+		} else {
+			out.Unrepro++
+		}
+	}
+	out.Violations = keep
+	return nil
 }
